@@ -89,6 +89,7 @@ static addr_t arena(int i) { return 0x1000ULL + (addr_t)i * ARENA; }     /* supe
 /* ------------------------------------------------------------------ policy stubs */
 struct mapping { addr_t base, len; int live; } maps[MAXMAPS + 1];
 int nmaps, map_calls, fail_at[2] = {-1, -1}, locks_held, map_failed_now;
+addr_t held_mutex;      /* address of the pool mutex currently held (0 = none) */
 /* POLICY 3: the poison state is a log of the hook calls; a byte's state is decided by the newest entry covering it (mapped
  * memory starts poisoned).  No per-byte loops: lengths are symbolic and a data-dependent loop would split the path per value. */
 #define MAXSH 160
@@ -140,10 +141,33 @@ void ir2c_access_hook(uint64_t a, uint64_t n, int write) {     /* every load/sto
 }
 #else
 void vp_poison(uint64_t p, uint64_t n) { (void)p; (void)n; } void vp_unpoison(uint64_t p, uint64_t n) { (void)p; (void)n; } void vp_unpoison_expand(uint64_t p, uint64_t n) { (void)p; (void)n; }
+#ifdef LOCKSET
+/* Lock-set discipline (Eraser-style sufficient condition for "no data race on pool state", checked on sequential scenarios: the
+ * discipline is a property of each code path, not of an interleaving).  Every load/store of the translated pool code that touches
+ *   - the mutable part of a PUBLISHED slab frame header (num_reserved, available, partial_hook: offsets 44..103), or
+ *   - a bucket's head_slb / partial_tree (pool + 24 + 32*i + 8 .. +31)            must hold that bucket's mutex;
+ *   - the used-page counter (pool + 16)                                          must hold the tree mutex.
+ * A slab is published once the call that constructed it has returned (until then it is private to that call). */
+int slab_published[MAXMAPS + 1]; int in_api;
+void ir2c_access_hook(uint64_t a, uint64_t n, int write) {
+	(void)write; (void)n; if(!in_api) return;
+	if(a >= POOL + POOL_OFF_USED && a < POOL + POOL_OFF_USED + 8) VP_ASSERT(held_mutex == POOL + POOL_OFF_TREEMX, "lock discipline: used-page counter accessed without the tree mutex (data race under concurrent calls)");
+	for(int b = 0; b < 4; b++) { addr_t bk = POOL + POOL_OFF_BKTS + BKT_SIZE * b;
+		if(a >= bk + 8 && a < bk + BKT_SIZE) VP_ASSERT(held_mutex == bk, "lock discipline: bucket state (head slab / partial tree) accessed without that bucket's mutex (data race under concurrent calls)"); }
+	for(int m = 0; m < MAXMAPS; m++) if(m < nmaps && maps[m].live && slab_published[m]) {
+		addr_t fr = (maps[m].base + SB - 1) & ~(addr_t)(SB - 1);
+		if(a >= fr + OFF_NRES && a < fr + HDR_SLAB && RD4(fr + OFF_TYPE) == 1) {
+			addr_t bk = POOL + POOL_OFF_BKTS + BKT_SIZE * RD4(fr + OFF_INDEX);
+			VP_ASSERT(held_mutex == bk, "lock discipline: mutable slab header (free-list head / reserved count / tree hook) of a published slab accessed without its bucket mutex (data race under concurrent calls)");
+		}
+	}
+}
+#else
 void ir2c_access_hook(uint64_t a, uint64_t n, int write) { (void)a; (void)n; (void)write; }
 #endif
-void vp_mutex_lock(uint64_t m) { VP_ASSERT(RD4(m) == 0, "lock() of a mutex that is already held (self-deadlock)"); VP_ASSERT(locks_held == 0, "a second pool lock taken while one is held (lock-order risk)"); WR4(m, 1); locks_held++; }
-void vp_mutex_unlock(uint64_t m) { VP_ASSERT(RD4(m) == 1, "unlock() of a mutex that is not held"); WR4(m, 0); locks_held--; }
+#endif
+void vp_mutex_lock(uint64_t m) { VP_ASSERT(RD4(m) == 0, "lock() of a mutex that is already held (self-deadlock)"); VP_ASSERT(locks_held == 0, "a second pool lock taken while one is held (lock-order risk)"); WR4(m, 1); locks_held++; held_mutex = m; }
+void vp_mutex_unlock(uint64_t m) { VP_ASSERT(RD4(m) == 1, "unlock() of a mutex that is not held"); WR4(m, 0); locks_held--; held_mutex = 0; }
 
 /* ------------------------------------------------------------------ reference bookkeeping */
 addr_t hp[KH]; uint64_t hreq[KH], hsize[KH]; int hlive[KH], hcls[KH]; uint32_t hpatn;
@@ -237,6 +261,10 @@ static void reset_all(void) {
 	memset(pool_mem, 0, sizeof pool_mem); for(int i = 0; i < MAXMAPS + 2; i++) if(arena_base[i]) memset((void *)(uintptr_t)arena_base[i], 0, ARENA);
 #endif
 	for(int i = 0; i < MAXMAPS + 1; i++) { maps[i].base = 0; maps[i].len = 0; maps[i].live = 0; }
+#ifdef LOCKSET
+	in_api = 0; for(int m = 0; m <= MAXMAPS; m++) slab_published[m] = 0;
+#endif
+	held_mutex = 0;
 	nmaps = 0; map_calls = 0; locks_held = 0; map_failed_now = 0; nsh = 0; pages_expected = 0;
 	for(int i = 0; i < KH; i++) { hp[i] = 0; hreq[i] = 0; hsize[i] = 0; hlive[i] = 0; hcls[i] = 0; }
 	for(int c = 0; c < 5; c++) { peak_live[c] = 0; cur_live[c] = 0; slab_maps[c] = 0; }
@@ -253,6 +281,9 @@ static void scenario(const int *sel, int fail0) {
 	for(int s = 0; s < K; s++) {
 		int op = OS[s], h = HS[s]; uint64_t n = SZ[sel[s]];
 		int maps_before = nmaps; map_failed_now = 0;
+#ifdef LOCKSET
+		in_api = 1;
+#endif
 		if(op == 0) {                                              /* allocate(n) into handle s */
 			addr_t p = pool_alloc(POOL, n);
 			if(map_failed_now) VP_ASSERT(p == 0, "allocate returned a block although map() failed");
@@ -285,6 +316,9 @@ static void scenario(const int *sel, int fail0) {
 				} else if(q) hreq[h] = n;
 			}
 		}
+#ifdef LOCKSET
+		in_api = 0; for(int m = 0; m < MAXMAPS; m++) slab_published[m] = m < nmaps;
+#endif
 		check_all();
 		VP_OBSERVE(nmaps * 1000 + (int)pool_used_pages(POOL) * 10 + cur_live[0] + cur_live[4]);
 	}
